@@ -215,3 +215,14 @@ def lib_short(c):
     s = re.sub(r'<[^<>]*>', '', c.defp or c.full)
     s = re.sub(r'<[^<>]*>', '', s)
     return '::'.join([p for p in s.split('::') if p][-2:])
+
+
+@rule('C09', 'delegated', configs=('default', 'p256'))
+def delegated(ctx):
+    """Two documented outcomes rest on rules owned by sibling properties: 'a forged user key' is rejected
+    (C08.verify-first: verify accepts only on the equal edge, before anything else happens), and encapsulation for
+    published rights succeeds (C11.selection: the all-hybridized flag is cleared only by a non-hybridized key, so the
+    internal 'all subkeys should be hybridized' error of h_encaps is unreachable)."""
+    from . import c08, c11
+    c08.verify_first(ctx)
+    c11.selection(ctx)
